@@ -134,8 +134,9 @@ def run_lookup_reset(vc):
                                     "_pd2ppc_lookups": PDict(dict(old)), "load": load}, strict=False)
                 seen = []
                 me = p.it.modenv(PF)
+                calls = []
                 for nm in ("_add_auxiliary_elements", "verify_results", "init_results", "_ppci_to_net"):
-                    me.vals[nm] = Native(lambda it, *a, **k: None, name=nm, pure=False)
+                    me.vals[nm] = Native(lambda it, *a, _nm=nm, **k: calls.append(_nm), name=nm, pure=False)
                 me.vals["_run_pf_algorithm"] = Native(lambda it, *a, **k: Opaque("result"), name="_run_pf_algorithm")
 
                 def pd2ppc(it, n, **k):
@@ -147,6 +148,11 @@ def run_lookup_reset(vc):
                     raise EngineError(f"_powerflow raised {out.exc!r}")
                 tag = f"_powerflow[ac={ac},init_results={init_results}]"
                 p.prove(f"{tag}: the network is converted exactly once", len(seen) == 1, meta=dict(part="lookup-reset"))
+                # the result tables of an earlier calculation are only kept when this calculation starts from them
+                p.prove(f"{tag}: the result tables are re-initialised unless the calculation starts from previous results",
+                        ("init_results" in calls) == (not init_results) and ("verify_results" in calls) == bool(init_results),
+                        meta=dict(part="result-reset"),
+                        note="a DC run writes no reactive results: columns it does not write must not keep the values of an earlier AC run")
                 if len(seen) != 1:
                     return
                 lk = seen[0]
@@ -169,6 +175,9 @@ def _flatten(vals):
 
 
 def replay(ob, model, finding=None):
+    if ob.meta.get("part") == "result-reset":
+        return {"script": f"# replay of {ob.id}\nfrom replaylib.history import main_dc_after_ac\nmain_dc_after_ac()\n",
+                "description": "runpp, a load change, then rundcpp on the same net object against rundcpp on a fresh copy: all result columns"}
     if ob.meta.get("part") == "lookup-reset":
         return {"script": f"# replay of {ob.id}\nfrom replaylib.history import main_lookups\nmain_lookups()\n",
                 "description": "all ext_grids switched off after a first calculation (a slack gen remains), then rundcpp / runpp(init='results') "
